@@ -10,6 +10,12 @@ STANDING_ASSUMPTIONS = [
 ]
 
 PROPERTIES = {
+    'C19': {
+        'units': ['event', 'tagsjson', 'filter_parse', 'event_parse'],
+        'sample_functions': ['Event::from_parts', 'read_tags_array', 'read_tag'],
+        'not_decided': ['Tags::from_parts / OwnedTags::new / Filter::from_parts / OwnedFilter::new / sign_new: view equality not yet under contract (their overflow fixes are in /repo; see DESIGN.md)',
+                        'JSON parsers: structural bounds are proved; "accessors reproduce exactly the parsed parts" is stage 3 of C01/C07'],
+    },
     'C04': {
         'units': ['map', 'store', 'storelemmas'],
         'sample_functions': ['EventStore::store_event', 'EventStore::get_event_by_offset', 'EventStore::new', 'Store::store_event'],
